@@ -1,7 +1,10 @@
 (* C25 — property theorems only: each closed by [exact lemma], followed by Print Assumptions.
    PARTIAL: only the parenthesisation decisions of the printer are modelled (nodes.go expr1 / binaryExpr for
    Ident, BasicLit, BinaryExpr, UnaryExpr, StarExpr, ParenExpr); the layout engine (blanks, depth/cutoff, line
-   breaks, comments, tabwriter) and all other node kinds are tied by the differential run only. *)
+   breaks, comments, tabwriter) and all other node kinds are tied by the differential run only.  In particular the
+   needed parentheses that are not unary/binary nesting (fix C25-6: composite literal starting with a type name in an
+   if/for/switch/range header - printer field exprLev -, conversions (<-chan T)(c), chan (<-chan T)) have no theorem:
+   the C24 parser model has no braces, statements or exprLev; harness stream D + headers generator check them. *)
 From Coq Require Import List NArith ZArith Bool.
 From Verif Require Import C24.Model C24.Proof C25.Model C25.Proof.
 Import ListNotations.
